@@ -139,6 +139,44 @@ func Run(c *core.Ctx) int {
 	}
 	c.Count("mutants:kept", int64(kept))
 
+	// (3b) targeted sweep, no sampling: every tax identity code of every accepted
+	// input replaced by texts outside the published identity pattern; whatever
+	// GOBL still accepts must be accepted by the schema
+	for _, e := range accepted {
+		for _, bad := range []string{"12-3456789", "ab.12", "12 34", "A&B", "12345678z"} {
+			v, err := decode(e.json)
+			if err != nil {
+				continue
+			}
+			target := v
+			if e.isEnvelope {
+				if m, ok := v.(map[string]any); ok {
+					if d, ok := m["doc"]; ok {
+						target = d
+					}
+					delete(m, "head")
+					delete(m, "sigs")
+				}
+			}
+			n := setTaxIDCodes(target, bad)
+			if n == 0 {
+				continue
+			}
+			b, err := json.Marshal(v)
+			if err != nil || seen[string(b)] {
+				continue
+			}
+			seen[string(b)] = true
+			c.Count("targeted:taxid-code:tried", 1)
+			out, _, err := goAccept(b, e.isEnvelope)
+			if err != nil {
+				continue
+			}
+			c.Count("targeted:taxid-code:kept", 1)
+			addAccepted(Case{Source: e.path, Mutation: "targeted-taxid-code:" + bad, Input: b, IsEnvelope: e.isEnvelope}, out)
+		}
+	}
+
 	// (4) model correspondence on the rejecting side: broken copies of valid outputs,
 	// judged by the Lean model and jsonschema only (GOBL has no say here)
 	nb := c.Pick(1200, 20000)
@@ -609,4 +647,28 @@ func syntheticInputs() []example {
 	add("pay-terms", map[string]any{"$schema": base + "pay/terms", "key": "due-date", "due_dates": []any{map[string]any{"date": "2024-02-01", "amount": "10.00", "percent": "100%"}}})
 	add("org-person", map[string]any{"$schema": base + "org/person", "name": map[string]any{"given": "Ana", "surname": "López"}, "emails": []any{map[string]any{"addr": "a@b.co"}}})
 	return out
+}
+
+
+// setTaxIDCodes sets (or adds) the code of every tax_id object in a document.
+func setTaxIDCodes(v any, code string) int {
+	n := 0
+	switch x := v.(type) {
+	case map[string]any:
+		for k, val := range x {
+			if k == "tax_id" {
+				if m, ok := val.(map[string]any); ok {
+					m["code"] = code
+					n++
+					continue
+				}
+			}
+			n += setTaxIDCodes(val, code)
+		}
+	case []any:
+		for _, e := range x {
+			n += setTaxIDCodes(e, code)
+		}
+	}
+	return n
 }
